@@ -5,6 +5,21 @@ use clap::ValueEnum;
 use ldpc_toolbox::decoder::factory::DecoderImplementation;
 use serde_json::json;
 
+unsafe extern "C" {
+    fn ldpc_toolbox_decoder_ctor_alist_string(alist: *const std::ffi::c_char, implementation: *const std::ffi::c_char, puncturing: *const std::ffi::c_char) -> *mut std::ffi::c_void;
+    fn ldpc_toolbox_decoder_dtor(decoder: *mut std::ffi::c_void);
+}
+
+/// does the C constructor accept `name` as an implementation string? ("na" when the string cannot be passed as a C string)
+fn capi_accepts(name: &str) -> &'static str {
+    if name.contains('\0') { return "na"; }
+    let alist = std::ffi::CString::new("3 2\n2 2\n1 2 1\n2 2\n1 0\n1 2\n2 0\n1 2\n2 3\n").unwrap();
+    let imp = std::ffi::CString::new(name).unwrap();
+    let pun = std::ffi::CString::new("").unwrap();
+    let p = unsafe { ldpc_toolbox_decoder_ctor_alist_string(alist.as_ptr(), imp.as_ptr(), pun.as_ptr()) };
+    if p.is_null() { "null" } else { unsafe { ldpc_toolbox_decoder_dtor(p) }; "handle" }
+}
+
 fn fingerprint(mut dec: Box<dyn ldpc_toolbox::decoder::LdpcDecoder>, family: &[(Vec<Vec<usize>>, usize, Vec<f64>, usize)], mk: &dyn Fn(&[Vec<usize>], usize) -> Box<dyn ldpc_toolbox::decoder::LdpcDecoder>) -> (String, Vec<String>) {
     // one decoder per matrix (the family is grouped by matrix); per-case digests are kept for the separation test
     let mut all = String::new();
@@ -35,7 +50,7 @@ pub fn generate(a: &Args) {
         let parsed = name.parse::<DecoderImplementation>();
         let show = parsed.as_ref().map(|d| d.to_string()).unwrap_or_default();
         let clap = parsed.as_ref().ok().and_then(|d| d.to_possible_value()).map(|p| p.get_name().to_string()).unwrap_or_default();
-        out.ev("Name", "ok", json!({"str": name, "hl": hl, "rest": rest, "parse_ok": parsed.is_ok(), "show": show, "clap": clap}));
+        out.ev("Name", "ok", json!({"str": name, "hl": hl, "rest": rest, "parse_ok": parsed.is_ok(), "show": show, "clap": clap, "capi": capi_accepts(name)}));
     }
     out.new_case();
     let variants: Vec<String> = DecoderImplementation::value_variants().iter()
@@ -64,7 +79,7 @@ pub fn generate(a: &Args) {
     non.dedup();
     for s in non.iter().filter(|s| !NAMES.contains(&s.as_str())) {
         out.new_case();
-        out.ev("NonMember", "ok", json!({"str": s, "parse_ok": s.parse::<DecoderImplementation>().is_ok()}));
+        out.ev("NonMember", "ok", json!({"str": s, "parse_ok": s.parse::<DecoderImplementation>().is_ok(), "capi": capi_accepts(s)}));
     }
     // behaviour: a separating family, grouped by matrix
     let mut family: Vec<(Vec<Vec<usize>>, usize, Vec<f64>, usize)> = vec![];
